@@ -21,6 +21,9 @@ type mainModel struct {
 	readCfg  *ssa.Function
 	validate *ssa.Function
 	newList  *ssa.Function // builds a service.CipherList from a configuration entry
+	// listCtors: every function of the command that returns a key list it created (newList, and small constructors such
+	// as newCipherListFromEntries(entries)); a call of one of them is a key-list creation site
+	listCtors map[string]bool
 }
 
 var mainModels = map[*eng.Prog]*mainModel{}
@@ -74,6 +77,41 @@ func mainM(c *Ctx) *mainModel {
 				if _, isS := pt.Elem().Underlying().(*types.Struct); isS && strings.HasPrefix(eng.TypeName(pt.Elem()), mainPkg+".") {
 					m.readCfg, m.configT = f, eng.TypeName(pt.Elem())
 				}
+			}
+		}
+	}
+	m.listCtors = map[string]bool{}
+	for changed := true; changed; {
+		changed = false
+		for _, f := range p.FnsIn(mainPkg) {
+			if f.Parent() != nil || f.Synthetic != "" || p.IsTestSupport(f) || m.listCtors[eng.CalleeNameOf(f)] {
+				continue
+			}
+			rs := f.Signature.Results()
+			if rs.Len() == 0 || eng.TypeName(rs.At(0).Type()) != "service.CipherList" {
+				continue
+			}
+			all, n := true, 0
+			for _, r := range eng.Returns(f) {
+				if len(r.Results) == 0 || eng.IsZeroValue(r.Results[0]) {
+					continue
+				}
+				n++
+				g, _ := p.AllFrom(r.Results[0], eng.Plain, func(v ssa.Value) bool {
+					cc, _, ok := eng.AsResult(v)
+					if !ok {
+						return false
+					}
+					nm := eng.CalleeName(&cc.Call)
+					return nm == "service.NewCipherList" || m.listCtors[nm]
+				})
+				if !g {
+					all = false
+				}
+			}
+			if all && n > 0 {
+				m.listCtors[eng.CalleeNameOf(f)] = true
+				changed = true
 			}
 		}
 	}
